@@ -8,7 +8,16 @@ from ..guards import Rejections
 from ..loader import AnalysisError, ClassInfo, FuncInfo, norm, own_nodes, src
 from ..template import Printer, erase, has_bar, normalise, show
 from ..util import callee_name, calls, with_nested
+from ..lits import guard_lits, has, lits_text
 from . import c09, c15
+
+
+def cond_lits(conds):
+    """literal set of a printer path's conditions [(text, polarity)]"""
+    out = set()
+    for c, pol in conds:
+        out |= lits_text(c, pol)
+    return frozenset(out)
 
 LEVEL = "other"
 
@@ -101,7 +110,8 @@ def weight_print(eng, res, rule="R-PRINT-COVERS"):
            f"printed without extension under {[c for _, c in without]}")
     # list form prints every entry of the list; scalar form prints the weight
     ok_list = any(any(pc[0] == "L" and pc[1] == "self.transitions" for pc in p) for p, _ in with_bar)
-    ok_scalar = any(any(pc == ("H", "self.weight") for pc in p) and any((c, pol) == ("self.transitions is None", True) for c, pol in conds) for p, conds in with_bar)
+    ok_scalar = any(any(pc == ("H", "self.weight") for pc in p) and has(cond_lits(conds), "self.transitions is None") for p, conds in with_bar)
+    ok_list = ok_list and all(has(cond_lits(conds), "self.transitions is not None") for p, conds in with_bar if any(pc[0] == "L" and pc[1] == "self.transitions" for pc in p))
     res.ob(rule, m, "weight-run-content", "a list weight prints every entry of the list; otherwise the scalar weight is printed", m.node, ok_list and ok_scalar)
     # stochastic object prints its distribution whenever it has one; molecule its mixture
     for cname, attr in (("Stochastic", "distribution"), ("Molecule", "mixture")):
@@ -110,11 +120,11 @@ def weight_print(eng, res, rule="R-PRINT-COVERS"):
         ok = True
         why = ""
         for p, conds in tt:
-            has = any(pc[0] == "K" and pc[1] == f"self.{attr}" for pc in p)
-            c = dict(conds)
-            cond_true = any(k in (f"self.{attr}", f"self.{attr} is not None") and v for k, v in conds)
-            cond_false = any(k in (f"self.{attr}", f"self.{attr} is not None") and not v for k, v in conds)
-            if has != cond_true or (not has and not cond_false):
+            printed = any(pc[0] == "K" and pc[1] == f"self.{attr}" for pc in p)
+            L = cond_lits(conds)
+            cond_true = has(L, f"self.{attr}") or has(L, f"self.{attr} is not None")
+            cond_false = has(L, f"self.{attr}", False) or has(L, f"self.{attr} is None")
+            if printed != cond_true or (not printed and not cond_false):
                 ok = False
                 why = f"path {show(p)} under {conds}"
         res.ob(rule, mm, f"{attr}-printed", f"{cname} prints its {attr} exactly when it has one", mm.node, ok, why)
@@ -124,7 +134,7 @@ def weight_print(eng, res, rule="R-PRINT-COVERS"):
     need = ["self.left_terminal", "self.right_terminal"]
     ok = all(all(any(pc[0] == "K" and pc[1] == x for pc in p) for x in need) for p, _ in tt)
     loops_ok = all(any(pc[0] == "L" and pc[1] == "self.repeat_tokens" for pc in p) for p, _ in tt)
-    end_ok = all(any(pc[0] == "L" and pc[1] == "self.end_tokens" for pc in p) == any((c, pol) == ("len(self.end_tokens) > 0", True) for c, pol in conds) for p, conds in tt)
+    end_ok = all(any(pc[0] == "L" and pc[1] == "self.end_tokens" for pc in p) == has(cond_lits(conds), "len(self.end_tokens) > 0") for p, conds in tt)
     res.ob(rule, st, "stochastic-complete", "both terminals, every repeat token and (when present) every end token are printed", st.node, ok and loops_ok and end_ok)
     for cname, lst in (("Molecule", "self._elements"), ("System", "self._molecules"), ("SmilesToken", "self.elements")):
         mm = eng.prog.cls(cname).method("generate_string")
@@ -145,8 +155,8 @@ def mix_form(eng, res, rule="R-MIX-FORM"):
     if ok:
         pc_, cc = pct[0]
         pp, pcnd = plain[0]
-        ok = list(cc) == [("self.absolute_mass is None", True)] and ("H", "self.relative_mass") in pc_ and ("H", "self.absolute_mass") in pp \
-            and list(pcnd) == [("self.absolute_mass is None", False)]
+        ok = cond_lits(cc) == lits_text("self.absolute_mass is None") and ("H", "self.relative_mass") in pc_ and ("H", "self.absolute_mass") in pp \
+            and cond_lits(pcnd) == lits_text("self.absolute_mass is not None")
         why = f"percent form under {cc}: {show(pc_)}; plain form under {pcnd}: {show(pp)}"
     res.ob(rule, m, "writer", "the % form is printed exactly when no absolute mass is known (with the relative mass), the plain form otherwise (with the absolute mass)", m.node, ok, why)
     init = ci.method("__init__")
@@ -158,9 +168,9 @@ def mix_form(eng, res, rule="R-MIX-FORM"):
     ok = len(st_rel) == 1 and len(st_abs) == 1
     why = f"{len(st_rel)} relative store(s), {len(st_abs)} absolute store(s)"
     if ok:
-        gr = [(src(t), pol) for t, pol in cfg.guard_exprs(cfg.node_of(st_rel[0]))]
-        ga = [(src(t), pol) for t, pol in cfg.guard_exprs(cfg.node_of(st_abs[0]))]
-        ok = ("'%' in self._raw_text", True) in gr and ("'%' in self._raw_text", False) in ga
+        gr = guard_lits(flow, st_rel[0])
+        ga = guard_lits(flow, st_abs[0])
+        ok = has(gr, "'%' in self._raw_text") and has(ga, "'%' not in self._raw_text")
         vr = src(flow.expand_ssa(st_rel[0].value, cfg.node_of(st_rel[0])))
         va = src(flow.expand_ssa(st_abs[0].value, cfg.node_of(st_abs[0])))
         ok = ok and "float(" in vr and "float(" in va and "%" in vr
